@@ -4,10 +4,17 @@
 // Spliced into src/iface/interface/mod.rs (child of `iface::interface`).
 //
 // State: a real `Interface::new` on an Ethernet device, own addresses through `update_ip_addrs`, then
-//   * neighbor cache: <= 3 `fill_with_expiration` calls with pairwise distinct symbolic unicast keys, symbolic unicast
-//     hardware addresses and expiries, one `limit_rate` (symbolic silent_until) - the fields of `Cache` are private
-//     to `iface::neighbor`, so the cache is built AND observed through its API: `lookup(p, t)` for universally
-//     quantified (p, t) characterises the whole cache (entries, expiries, silent_until);
+//   * neighbor cache: built as a separate object through `fill_with_expiration` / `limit_rate` and then assigned to
+//     `inner.neighbor_cache`: n entries (n symbolic 0..=3, or fixed where the code under test itself fills) whose KEYS
+//     ARE THREE FIXED DISTINCT ADDRESSES (two on-link hosts, one off-link) and whose hardware addresses, expiries and
+//     the silent_until are symbolic.  Measured reason (DESIGN.md 3, harness hygiene): symbolic keys make the
+//     LinearMap's length - and with it every later write offset inside the ~1.5 KB `Interface` object - symbolic, and
+//     CBMC then runs out of 8 GB in propositional reduction (7 M variables for the set-up alone); with fixed keys all
+//     offsets are concrete.  Nothing is lost for these harnesses: the cache treats keys opaquely (`Eq` only; all-keys
+//     behaviour of lookup/fill/eviction is neighbor_cache.rs' subject), and the addresses that the code under test
+//     looks up / learns (destination, gateways, ARP / NDISC sender) are fully symbolic, so they coincide with a key,
+//     with an expired key, or with none.  The fields of `Cache` are private to `iface::neighbor`, so the cache is
+//     observed through its API: `lookup(p, t)` for universally quantified (p, t) characterises the whole cache;
 //   * routes: <= 2 symbolic routes through `routes_mut().update`;
 //   * `now`: symbolic instant (microseconds) given to `Interface::new`.
 // INV_nc (neighbor_cache.rs): expires_at <= now + 60 s, silent_until <= now + 1 s.
@@ -135,28 +142,55 @@ mod v_iface_neighbor {
         }
     }
 
-    /// arbitrary INV_nc cache contents at `now`, written through the cache's public API
-    fn any_cache_into(c: &mut NeighborCache, now: Instant) -> Model {
-        let n = any_le(3);
+    /// the three fixed cache keys: two on-link hosts and one off-link address
+    fn key(i: usize) -> IpAddress {
+        #[cfg(all(feature = "proto-ipv4", not(feature = "proto-ipv6")))]
+        let k = match i {
+            0 => IpAddress::Ipv4(Ipv4Address::new(192, 168, 1, 2)),
+            1 => IpAddress::Ipv4(Ipv4Address::new(192, 168, 1, 77)),
+            _ => IpAddress::Ipv4(Ipv4Address::new(10, 1, 2, 3)),
+        };
+        #[cfg(feature = "proto-ipv6")]
+        let k = match i {
+            0 => IpAddress::Ipv6(Ipv6Address::new(0xfe80, 0, 0, 0, 0, 0, 0, 2)),
+            1 => IpAddress::Ipv6(Ipv6Address::new(0x2001, 0xdb8, 0, 0, 0, 0, 0, 0x77)),
+            _ => IpAddress::Ipv6(Ipv6Address::new(0x2001, 0xdb9, 0, 0, 0, 0, 0, 1)),
+        };
+        k
+    }
+
+    /// INV_nc cache contents at `now`: entries for key(0..n) with symbolic hardware addresses / expiries, symbolic
+    /// silent_until; built on a separate object through the cache's public API (every fill at a concrete length)
+    fn cache_with(n: usize, now: Instant) -> (NeighborCache, Model) {
+        let mut c = NeighborCache::new();
         let hi = now.total_micros() + 60 * SEC;
-        let e0 = E { valid: n >= 1, ip: any_unicast(), hw: any_hw(), exp: any_instant(0, hi) };
-        let e1 = E { valid: n >= 2, ip: any_unicast(), hw: any_hw(), exp: any_instant(0, hi) };
-        let e2 = E { valid: n >= 3, ip: any_unicast(), hw: any_hw(), exp: any_instant(0, hi) };
-        kani::assume(e0.ip != e1.ip && e0.ip != e2.ip && e1.ip != e2.ip);
-        if e0.valid {
+        let e0 = E { valid: n >= 1, ip: key(0), hw: any_hw(), exp: any_instant(0, hi) };
+        let e1 = E { valid: n >= 2, ip: key(1), hw: any_hw(), exp: any_instant(0, hi) };
+        let e2 = E { valid: n >= 3, ip: key(2), hw: any_hw(), exp: any_instant(0, hi) };
+        if n >= 1 {
             c.fill_with_expiration(e0.ip, e0.hw, e0.exp);
         }
-        if e1.valid {
+        if n >= 2 {
             c.fill_with_expiration(e1.ip, e1.hw, e1.exp);
         }
-        if e2.valid {
+        if n >= 3 {
             c.fill_with_expiration(e2.ip, e2.hw, e2.exp);
         }
         let silent = any_instant(0, now.total_micros() + SEC);
         if silent.total_micros() != 0 {
             c.limit_rate(plus(silent, -SEC));
         }
-        Model { e: [e0, e1, e2], n, silent }
+        (c, Model { e: [e0, e1, e2], n, silent })
+    }
+    /// n symbolic in 0..=3, each case built with a concrete n
+    fn any_cache(now: Instant) -> (NeighborCache, Model) {
+        let n = any_le(3);
+        match n {
+            0 => cache_with(0, now),
+            1 => cache_with(1, now),
+            2 => cache_with(2, now),
+            _ => cache_with(3, now),
+        }
     }
 
     /// the whole observable cache equals the model: for ALL addresses and instants (p, t symbolic)
@@ -414,9 +448,9 @@ mod v_iface_neighbor {
     }
 
     /// a unicast destination as `dispatch_ip` sees it: not multicast / unspecified / broadcast (limited or own subnet)
-    fn any_unicast_dst(iface: &Interface) -> IpAddress {
+    fn any_unicast_dst(inner: &InterfaceInner) -> IpAddress {
         let d = any_unicast();
-        kani::assume(!iface.inner.is_broadcast(&d));
+        kani::assume(!inner.is_broadcast(&d));
         d
     }
 
@@ -425,35 +459,42 @@ mod v_iface_neighbor {
     #[kani::proof]
     pub(crate) fn lookup_hw_addr_step() {
         eth_env!(dev, iface, now, false);
-        let mut m = any_cache_into(&mut iface.inner.neighbor_cache, now);
+        let (c, mut m) = any_cache(now);
+        iface.inner.neighbor_cache = c;
         let n = any_le(2);
         let r0 = any_route();
         let r1 = any_route();
-        iface.routes_mut().update(|v| {
-            if n >= 1 {
+        // (each case pushes at a concrete length)
+        match n {
+            0 => {}
+            1 => iface.routes_mut().update(|v| {
                 v.push(r0).unwrap();
-            }
-            if n >= 2 {
+            }),
+            _ => iface.routes_mut().update(|v| {
+                v.push(r0).unwrap();
                 v.push(r1).unwrap();
-            }
-        });
-        let dst = any_unicast_dst(&iface);
+            }),
+        }
+        // the code under test gets a small `self`: InterfaceInner and Fragmenter moved out of the Interface
+        let mut inner = iface.inner;
+        let mut fragmenter = iface.fragmenter;
+        let dst = any_unicast_dst(&inner);
         // ghost: instant of the latest request so far, J: silent_until >= L + 1 s
         let has_last: bool = kani::any();
         let last = any_instant(0, now.total_micros());
         kani::assume(!has_last || m.silent >= plus(last, SEC));
 
         // the code's next hop is one the reference admits
-        let nh = iface.inner.route(&dst, now);
+        let nh = inner.route(&dst, now);
         assert!(ref_next_hop_ok(nh, &dst, n, &r0, &r1, now), "prop:c16_next_hop_is_destination_if_on_link_else_longest_prefix_live_gateway");
-        assert!(iface.inner.has_neighbor(&dst) == (nh.is_some() && m_lookup(&m, &nh.unwrap_or(dst), now).found()), "prop:c16_has_neighbor_iff_next_hop_resolved");
+        assert!(inner.has_neighbor(&dst) == (nh.is_some() && m_lookup(&m, &nh.unwrap_or(dst), now).found()), "prop:c16_has_neighbor_iff_next_hop_resolved");
 
         // ---- step A (optional): lookup_hardware_addr
         let do_a: bool = kani::any();
         let mut a_sent = false;
         if do_a {
             let mut st = TxState::<CAP>::new();
-            let res = iface.inner.lookup_hardware_addr(CapTx { st: &mut st }, &dst, &mut iface.fragmenter);
+            let res = inner.lookup_hardware_addr(CapTx { st: &mut st }, &dst, &mut fragmenter);
             let res = match res {
                 Ok((h, _tok)) => Ok(h),
                 Err(e) => Err(e),
@@ -488,18 +529,18 @@ mod v_iface_neighbor {
                 assert!(nh.is_some() && m_lookup(&m, &nh.unwrap(), now) == NeighborAnswer::Found(h), "prop:c16_never_a_guessed_hardware_address");
             }
             // cache entries untouched; silent_until = now + 1 s exactly when a request went out
-            assert_cache_is(&iface.inner.neighbor_cache, &m, now);
+            assert_cache_is(&inner.neighbor_cache, &m, now);
         }
 
         // ---- step B: dispatch_ip of a UDP datagram to dst at the same instant
         let data: [u8; 4] = kani::any();
         let sport: u16 = kani::any();
         let dport: u16 = kani::any();
-        let src = iface.inner.get_source_address(&dst).unwrap();
+        let src = inner.get_source_address(&dst).unwrap();
         let ip = IpRepr::new(src, dst, IpProtocol::Udp, 8 + 4, 64);
         let packet = Packet::new(ip, IpPayload::Udp(UdpRepr { src_port: sport, dst_port: dport }, &data[..]));
         let mut st = TxState::<CAP>::new();
-        let res = iface.inner.dispatch_ip(CapTx { st: &mut st }, PacketMeta::default(), packet, &mut iface.fragmenter);
+        let res = inner.dispatch_ip(CapTx { st: &mut st }, PacketMeta::default(), packet, &mut fragmenter);
         let mut b_sent = false;
         let mut hit = false;
         match nh {
@@ -533,9 +574,9 @@ mod v_iface_neighbor {
             // prop:c16_silent_until_set_after_request is the silent part of the next assertion
             assert!(m.silent == plus(now, SEC), "prop:c16_silent_until_set_after_request");
         }
-        assert_cache_is(&iface.inner.neighbor_cache, &m, now);
+        assert_cache_is(&inner.neighbor_cache, &m, now);
         // the fragmenter holds nothing (no datagram parked for a guessed address)
-        assert!(iface.fragmenter.is_empty(), "prop:c16_nothing_parked_in_fragmenter");
+        assert!(fragmenter.is_empty(), "prop:c16_nothing_parked_in_fragmenter");
 
         kani::cover!(hit && !on_link(&dst) && n == 2 && usable(&r0, &dst, now) && usable(&r1, &dst, now), "hit through a gateway chosen among two live routes");
         kani::cover!(hit && on_link(&dst) && m.n == 3, "on-link hit in a full cache");
@@ -594,18 +635,20 @@ mod v_iface_neighbor {
         o == [192, 168, 1, 255] || o == [10, 255, 255, 255]
     }
 
-    // @harness props=C16 cfg=KI4 tier=q to=900 mem=8 unwind=8 opts=nomem covers=5 funcs=InterfaceInner::process_arp;ArpRepr::parse;neighbor::Cache::fill;InterfaceInner::in_same_network;InterfaceInner::has_ip_addr bounds=Ethernet_interface_with_192.168.1.1/24_and_10.0.0.5/8;_all_28_ARP_bytes_symbolic_(any_hardware/protocol_type,_lengths,_operation,_addresses);_neighbor_cache_3_slots_in_any_state;_any_instant;_sender_=_directed_broadcast_of_an_own_subnet_excluded_(finding_arp_subnet_broadcast_sender)
-    #[kani::proof]
-    pub(crate) fn cache_fill_only_validated_arp() {
+    /// one ARP packet against a cache holding n entries (n concrete: every write offset concrete, see file header)
+    fn arp_step(n: usize) {
         #[cfg(feature = "proto-ipv4")]
         {
             eth_env!(dev, iface, now, true);
-            let m = any_cache_into(&mut iface.inner.neighbor_cache, now);
+            let (c, m) = cache_with(n, now);
+            // the code under test gets a small `self`: InterfaceInner moved out of the Interface (no 256-byte buffers behind it)
+            let mut inner = iface.inner;
+            inner.neighbor_cache = c;
             let a = any_arp_frame();
             // known-finding region, checked by finding_arp_subnet_broadcast_sender
             kani::assume(!v4_own_subnet_broadcast(&a.spa));
             let eth = EthernetFrame::new_unchecked(&a.frame[..]);
-            let reply = iface.inner.process_arp(now, &eth);
+            let reply = inner.process_arp(now, &eth);
             let to_us = a.tpa == OWN4 || a.tpa == OWN4B;
             let valid = a.hdr_ok
                 && to_us
@@ -617,13 +660,13 @@ mod v_iface_neighbor {
             let sha = HardwareAddress::Ethernet(EthernetAddress(a.sha));
             let m2 = if valid {
                 // exactly (source protocol address -> source hardware address), good for 60 s from now
-                assert!(iface.inner.neighbor_cache.lookup(&spa, plus(now, 60 * SEC - 1)) == NeighborAnswer::Found(sha), "prop:c16_validated_arp_sender_learned");
-                model_after_fill(&iface.inner.neighbor_cache, &m, spa, sha, now)
+                assert!(inner.neighbor_cache.lookup(&spa, plus(now, 60 * SEC - 1)) == NeighborAnswer::Found(sha), "prop:c16_validated_arp_sender_learned");
+                model_after_fill(&inner.neighbor_cache, &m, spa, sha, now)
             } else {
                 m
             };
             // nothing else changes; an invalid packet changes nothing at all
-            assert_cache_is(&iface.inner.neighbor_cache, &m2, now);
+            assert_cache_is(&inner.neighbor_cache, &m2, now);
             // replies: only to a validated request, addressed back to the sender
             match reply {
                 None => assert!(!(valid && a.oper == 1), "prop:c16_validated_arp_request_answered"),
@@ -634,7 +677,7 @@ mod v_iface_neighbor {
                 }
                 Some(_) => assert!(false, "prop:c16_arp_reply_only_to_validated_request"),
             }
-            kani::cover!(valid && m.n == 3 && m_key_index(&m, &spa).is_none(), "validated sender evicts the oldest of a full cache");
+            kani::cover!(valid && m_key_index(&m, &spa).is_none() && a.oper == 1, "validated new sender learned from a request (appended, or evicting the oldest of a full cache)");
             kani::cover!(valid && a.oper == 2 && m_key_index(&m, &spa).is_some(), "reply updates a known neighbor");
             kani::cover!(!valid && a.hdr_ok && to_us && (a.oper == 1 || a.oper == 2) && a.sha[0] & 1 == 0 && v4_class_unicast(&a.spa), "off-link sender rejected");
             kani::cover!(!valid && a.hdr_ok && to_us && a.oper == 1 && v4_in_own_nets(&a.spa) && a.sha[0] & 1 == 1, "multicast hardware address rejected");
@@ -642,28 +685,42 @@ mod v_iface_neighbor {
         }
     }
 
+    // @harness props=C16 cfg=KI4 tier=q to=900 mem=8 unwind=8 opts=nomem covers=5 funcs=InterfaceInner::process_arp;ArpRepr::parse;neighbor::Cache::fill;InterfaceInner::in_same_network;InterfaceInner::has_ip_addr bounds=Ethernet_interface_with_192.168.1.1/24_and_10.0.0.5/8;_all_28_ARP_bytes_symbolic_(any_hardware/protocol_type,_lengths,_operation,_addresses);_neighbor_cache_of_3_slots_holding_2_entries_(fixed_keys_192.168.1.2,_192.168.1.77):_sender_known_or_new,_room_left_with_any_hardware_addresses,_expiries,_silent_until;_any_instant;_sender_=_directed_broadcast_of_an_own_subnet_excluded_(finding_arp_subnet_broadcast_sender)
+    #[kani::proof]
+    pub(crate) fn cache_fill_only_validated_arp() {
+        arp_step(2);
+    }
+
+    // @harness props=C16 cfg=KI4 tier=q to=900 mem=8 unwind=8 opts=nomem covers=5 funcs=InterfaceInner::process_arp;ArpRepr::parse;neighbor::Cache::fill;InterfaceInner::in_same_network;InterfaceInner::has_ip_addr bounds=Ethernet_interface_with_192.168.1.1/24_and_10.0.0.5/8;_all_28_ARP_bytes_symbolic_(any_hardware/protocol_type,_lengths,_operation,_addresses);_neighbor_cache_of_3_slots_holding_3_entries_(fixed_keys_192.168.1.2,_192.168.1.77,_10.1.2.3):_full,_a_new_sender_evicts_the_oldest_with_any_hardware_addresses,_expiries,_silent_until;_any_instant;_sender_=_directed_broadcast_of_an_own_subnet_excluded_(finding_arp_subnet_broadcast_sender)
+    #[kani::proof]
+    pub(crate) fn cache_fill_only_validated_arp_full() {
+        arp_step(3);
+    }
+
     // The directed-broadcast address of an own subnet (192.168.1.255 on 192.168.1.0/24) is not a unicast sender
     // (`InterfaceInner::is_unicast_v4`, used for IPv4 sources in process_ipv4, says so), yet process_arp tests only the
     // address class (`x_is_unicast`) and learns it.  Excluded from cache_fill_only_validated_arp, asserted here.
-    // @harness props=C16 cfg=KI4 kind=finding tier=q to=600 mem=8 unwind=8 opts=nomem covers=2 funcs=InterfaceInner::process_arp;InterfaceInner::is_unicast_v4 bounds=ARP_request/reply_for_192.168.1.1_from_sender_protocol_address_192.168.1.255_or_10.255.255.255,_any_sender_hardware_address;_neighbor_cache_in_any_state
+    // @harness props=C16 cfg=KI4 kind=finding tier=q to=600 mem=8 unwind=8 opts=nomem covers=2 funcs=InterfaceInner::process_arp;InterfaceInner::is_unicast_v4 bounds=ARP_request/reply_for_192.168.1.1_from_sender_protocol_address_192.168.1.255_or_10.255.255.255,_any_sender_hardware_address;_neighbor_cache_holding_2_entries_(fixed_keys)
     #[kani::proof]
     pub(crate) fn finding_arp_subnet_broadcast_sender() {
         #[cfg(feature = "proto-ipv4")]
         {
             eth_env!(dev, iface, now, true);
-            let m = any_cache_into(&mut iface.inner.neighbor_cache, now);
+            let (c, m) = cache_with(2, now);
+            let mut inner = iface.inner;
+            inner.neighbor_cache = c;
             let a = any_arp_frame();
             kani::assume(a.hdr_ok && v4_own_subnet_broadcast(&a.spa));
             // such an address is never a cache key beforehand (it cannot be learned legitimately)
             kani::assume(m_key_index(&m, &IpAddress::Ipv4(a.spa)).is_none());
             let eth = EthernetFrame::new_unchecked(&a.frame[..]);
-            let reply = iface.inner.process_arp(now, &eth);
+            let reply = inner.process_arp(now, &eth);
             crate::vdump!("ARP oper={} sha={:?} spa={} tpa={} reply={}", a.oper, a.sha, a.spa, a.tpa, reply.is_some());
-            crate::vdump!("lookup(spa, now) = {:?}", iface.inner.neighbor_cache.lookup(&IpAddress::Ipv4(a.spa), now));
-            assert!(!iface.inner.neighbor_cache.lookup(&IpAddress::Ipv4(a.spa), now).found(), "prop:c16_non_unicast_arp_sender_not_learned");
-            assert_cache_is(&iface.inner.neighbor_cache, &m, now);
+            crate::vdump!("lookup(spa, now) = {:?}", inner.neighbor_cache.lookup(&IpAddress::Ipv4(a.spa), now));
+            assert!(!inner.neighbor_cache.lookup(&IpAddress::Ipv4(a.spa), now).found(), "prop:c16_non_unicast_arp_sender_not_learned");
+            assert_cache_is(&inner.neighbor_cache, &m, now);
             kani::cover!(a.tpa == OWN4 && a.oper == 1, "request to us from the subnet broadcast address");
-            kani::cover!(m.n == 3, "full cache");
+            kani::cover!(a.oper == 2 && a.tpa == OWN4B, "reply to our second address from the subnet broadcast address");
         }
     }
 
@@ -680,13 +737,14 @@ mod v_iface_neighbor {
         }
     }
 
-    // @harness props=C16 cfg=KI6 tier=q to=900 mem=8 unwind=18 opts=nomem covers=6 funcs=InterfaceInner::process_ndisc;RawHardwareAddress::parse;neighbor::Cache::fill;neighbor::Cache::lookup;InterfaceInner::has_solicited_node bounds=Ethernet_interface_fe80::1/64_+_2001:db8::1/64,_SLAAC_off;_symbolic_NdiscRepr_of_every_kind_(NA,_NS,_RS,_RA,_Redirect)_with_any_flags,_any_target,_link-layer_option_absent_or_of_length_0..=6_with_any_bytes;_any_unicast_IPv6_source_(process_ipv6_drops_others),_any_destination;_hop_limit_255_(gate_in_process_icmpv6:_ndisc_hop_limit_gate);_neighbor_cache_3_slots_in_any_state
-    #[kani::proof]
-    pub(crate) fn cache_fill_only_validated_ndisc() {
+    /// one NDISC message against a cache holding n entries (n concrete, see file header)
+    fn ndisc_step(n: usize) {
         #[cfg(all(feature = "proto-ipv6", not(feature = "proto-ipv4")))]
         {
             eth_env!(dev, iface, now, true);
-            let m = any_cache_into(&mut iface.inner.neighbor_cache, now);
+            let (c, m) = cache_with(n, now);
+            let mut inner = iface.inner;
+            inner.neighbor_cache = c;
             let src = match any_unicast() {
                 IpAddress::Ipv6(a) => a,
             };
@@ -717,7 +775,7 @@ mod v_iface_neighbor {
                 },
                 _ => NdiscRepr::Redirect { target_addr: target, dest_addr: dst, lladdr, redirected_hdr: None },
             };
-            let reply = iface.inner.process_ndisc(ip_repr, repr);
+            let reply = inner.process_ndisc(ip_repr, repr);
 
             // reference: who may teach us an address
             let ll_ok = match lladdr {
@@ -738,12 +796,12 @@ mod v_iface_neighbor {
                 let raw = lladdr.unwrap();
                 let b = raw.as_bytes();
                 let hw = HardwareAddress::Ethernet(EthernetAddress([b[0], b[1], b[2], b[3], b[4], b[5]]));
-                assert!(iface.inner.neighbor_cache.lookup(&srca, plus(now, 60 * SEC - 1)) == NeighborAnswer::Found(hw), "prop:c16_validated_ndisc_sender_learned");
-                model_after_fill(&iface.inner.neighbor_cache, &m, srca, hw, now)
+                assert!(inner.neighbor_cache.lookup(&srca, plus(now, 60 * SEC - 1)) == NeighborAnswer::Found(hw), "prop:c16_validated_ndisc_sender_learned");
+                model_after_fill(&inner.neighbor_cache, &m, srca, hw, now)
             } else {
                 m
             };
-            assert_cache_is(&iface.inner.neighbor_cache, &m2, now);
+            assert_cache_is(&inner.neighbor_cache, &m2, now);
             // a solicitation is answered only for an own target reached through its solicited-node group; the
             // advertisement goes back to the solicitor and names this interface's hardware address
             if let Some(p) = &reply {
@@ -756,11 +814,23 @@ mod v_iface_neighbor {
             }
             kani::cover!(kind == 0 && fills && known_live && override_flag, "override advertisement replaces a live entry");
             kani::cover!(kind == 0 && !fills && ll_ok && target_unicast, "advertisement without override for a live entry ignored");
-            kani::cover!(kind == 1 && fills && m.n == 3 && m_key_index(&m, &srca).is_none(), "solicitation from a new neighbor evicts the oldest");
+            kani::cover!(kind == 1 && fills && m_key_index(&m, &srca).is_none(), "solicitation from a new neighbor learned (appended, or evicting the oldest of a full cache)");
             kani::cover!(kind <= 1 && lladdr.is_some() && !ll_ok, "multicast or mis-sized link-layer address rejected");
             kani::cover!(kind == 1 && reply.is_some(), "solicitation answered");
             kani::cover!(kind >= 2 && lladdr.is_some(), "router solicitation / advertisement / redirect: cache untouched");
         }
+    }
+
+    // @harness props=C16 cfg=KI6 tier=q to=900 mem=8 unwind=18 opts=nomem covers=6 funcs=InterfaceInner::process_ndisc;RawHardwareAddress::parse;neighbor::Cache::fill;neighbor::Cache::lookup;InterfaceInner::has_solicited_node bounds=Ethernet_interface_fe80::1/64_+_2001:db8::1/64,_SLAAC_off;_symbolic_NdiscRepr_of_every_kind_(NA,_NS,_RS,_RA,_Redirect)_with_any_flags,_any_target,_link-layer_option_absent_or_of_length_0..=6_with_any_bytes;_any_unicast_IPv6_source_(process_ipv6_drops_others),_any_destination;_hop_limit_255_(gate_in_process_icmpv6:_ndisc_hop_limit_gate);_neighbor_cache_of_3_slots_holding_2_entries_(fixed_keys_fe80::2,_2001:db8::77):_sender_known_or_new,_room_left_with_any_hardware_addresses,_expiries,_silent_until
+    #[kani::proof]
+    pub(crate) fn cache_fill_only_validated_ndisc() {
+        ndisc_step(2);
+    }
+
+    // @harness props=C16 cfg=KI6 tier=q to=900 mem=8 unwind=18 opts=nomem covers=6 funcs=InterfaceInner::process_ndisc;RawHardwareAddress::parse;neighbor::Cache::fill;neighbor::Cache::lookup;InterfaceInner::has_solicited_node bounds=Ethernet_interface_fe80::1/64_+_2001:db8::1/64,_SLAAC_off;_symbolic_NdiscRepr_of_every_kind_(NA,_NS,_RS,_RA,_Redirect)_with_any_flags,_any_target,_link-layer_option_absent_or_of_length_0..=6_with_any_bytes;_any_unicast_IPv6_source_(process_ipv6_drops_others),_any_destination;_hop_limit_255_(gate_in_process_icmpv6:_ndisc_hop_limit_gate);_neighbor_cache_of_3_slots_holding_3_entries_(fixed_keys_fe80::2,_2001:db8::77,_2001:db9::1):_full,_a_new_sender_evicts_the_oldest_with_any_hardware_addresses,_expiries,_silent_until
+    #[kani::proof]
+    pub(crate) fn cache_fill_only_validated_ndisc_full() {
+        ndisc_step(3);
     }
 
     // The off-link gate: NDISC is honoured only with hop limit 255 (RFC 4861 7.1.1/7.1.2), enforced in process_icmpv6.
@@ -771,6 +841,7 @@ mod v_iface_neighbor {
         #[cfg(all(feature = "proto-ipv6", not(feature = "proto-ipv4")))]
         {
             eth_env!(dev, iface, now, true);
+            let mut inner = iface.inner;
             let src = match any_unicast() {
                 IpAddress::Ipv6(a) => a,
             };
@@ -788,16 +859,16 @@ mod v_iface_neighbor {
             b[26..32].copy_from_slice(&mac);
             let mut storage: [SocketStorage; 1] = [SocketStorage::EMPTY];
             let mut sockets = SocketSet::new(&mut storage[..]);
-            let reply = iface.inner.process_icmpv6(&mut sockets, ip_repr, &b[..]);
+            let reply = inner.process_icmpv6(&mut sockets, ip_repr, &b[..]);
             let srca = IpAddress::Ipv6(src);
-            let learned = iface.inner.neighbor_cache.lookup(&srca, now).found();
+            let learned = inner.neighbor_cache.lookup(&srca, now).found();
             let valid = opt_is_target && mac[0] & 1 == 0 && tgt[0] != 0xff && tgt != [0u8; 16];
             if hop != 255 {
                 assert!(!learned, "prop:c16_ndisc_from_off_link_ignored");
             }
             assert!(learned == (hop == 255 && valid), "prop:c16_validated_ndisc_sender_learned");
             if learned {
-                assert!(iface.inner.neighbor_cache.lookup(&srca, now) == NeighborAnswer::Found(HardwareAddress::Ethernet(EthernetAddress(mac))), "prop:c16_validated_ndisc_sender_learned");
+                assert!(inner.neighbor_cache.lookup(&srca, now) == NeighborAnswer::Found(HardwareAddress::Ethernet(EthernetAddress(mac))), "prop:c16_validated_ndisc_sender_learned");
             }
             assert!(reply.is_none(), "prop:c16_advertisement_never_answered");
             kani::cover!(learned, "advertisement with hop limit 255 learned");
@@ -806,7 +877,7 @@ mod v_iface_neighbor {
     }
 
     // ------------------------------------------------------------------ 5. socket data survives an unresolved neighbor
-    // @harness props=C16 cfg=KI4 tier=q to=900 mem=8 unwind=8 opts=nomem covers=4 funcs=Interface::socket_egress;udp::Socket::dispatch;InterfaceInner::dispatch_ip;InterfaceInner::lookup_hardware_addr;InterfaceInner::has_neighbor;socket_meta::Meta::egress_permitted;socket_meta::Meta::neighbor_missing;socket_meta::Meta::poll_at bounds=one_UDP_socket_with_one_queued_4-byte_datagram_to_any_on-link_host_192.168.1.x;_neighbor_cache_3_slots_in_any_state_without_a_live_entry_for_it;_any_silent_until;_device_with_or_without_a_free_transmit_buffer;_second_egress_after_the_address_was_learned
+    // @harness props=C16 cfg=KI4 tier=q to=900 mem=8 unwind=8 opts=nomem covers=4 funcs=Interface::socket_egress;udp::Socket::dispatch;InterfaceInner::dispatch_ip;InterfaceInner::lookup_hardware_addr;InterfaceInner::has_neighbor;socket_meta::Meta::egress_permitted;socket_meta::Meta::neighbor_missing;socket_meta::Meta::poll_at bounds=one_UDP_socket_with_one_queued_4-byte_datagram_to_any_on-link_host_192.168.1.x;_neighbor_cache_holding_2_entries_(fixed_keys_192.168.1.2,_.77;_any_addresses,_expiries)_without_a_live_entry_for_it;_any_silent_until;_device_with_or_without_a_free_transmit_buffer;_second_egress_after_the_address_was_learned
     #[kani::proof]
     pub(crate) fn egress_keeps_data_when_neighbor_unknown() {
         #[cfg(all(feature = "proto-ipv4", feature = "socket-udp"))]
@@ -816,7 +887,9 @@ mod v_iface_neighbor {
             let now = any_instant(0, T_MAX);
             let mut iface = Interface::new(Config::new(HardwareAddress::Ethernet(OWN_MAC)), &mut dev, now);
             push_own_addrs(&mut iface, false);
-            let m = any_cache_into(&mut iface.inner.neighbor_cache, now);
+            // 2 entries (fixed keys .2 and .77): the later fill of dst replaces one of them or appends, at concrete offsets
+            let (c, m) = cache_with(2, now);
+            iface.inner.neighbor_cache = c;
             let x: u8 = kani::any();
             kani::assume(x != 255);
             let dst4 = Ipv4Address::new(192, 168, 1, x);
@@ -890,7 +963,7 @@ mod v_iface_neighbor {
             } else {
                 check_ip_frame(&dev.tx.buf0, dev.tx.len0, &hw, &src, &dst, lport, rport, &data);
             }
-            kani::cover!(arp_sent && m.n == 3, "ARP request sent, cache full of other neighbors");
+            kani::cover!(arp_sent && m_key_index(&m, &dst).is_none(), "ARP request sent for a neighbor never seen");
             kani::cover!(!arp_sent && dev.tx.frames == 1 && now < m.silent, "rate limited: no request, datagram kept");
             kani::cover!(m_key_index(&m, &dst).is_some() && arp_sent, "expired entry not used, rediscovered");
             kani::cover!(m.silent > now && m.silent.total_micros() - now.total_micros() == SEC, "request had just been sent");
@@ -901,60 +974,14 @@ mod v_iface_neighbor {
     #[kani::proof]
     pub(crate) fn iface_neighbor_must_fail() {
         eth_env!(dev, iface, now, false);
-        let m = any_cache_into(&mut iface.inner.neighbor_cache, now);
-        let dst = any_unicast_dst(&iface);
+        let (c, m) = any_cache(now);
+        iface.inner.neighbor_cache = c;
+        let mut inner = iface.inner;
+        let mut fragmenter = iface.fragmenter;
+        let dst = any_unicast_dst(&inner);
         let mut st = TxState::<CAP>::new();
-        let res = iface.inner.lookup_hardware_addr(CapTx { st: &mut st }, &dst, &mut iface.fragmenter);
+        let res = inner.lookup_hardware_addr(CapTx { st: &mut st }, &dst, &mut fragmenter);
         // false: a miss outside the silent second does send a request
         assert!(st.frames == 0, "prop:deliberately_false_lookup_never_sends");
     }
-
-    // DEBUG-BEGIN
-    fn any_cache_standalone(now: Instant) -> (NeighborCache, Model) {
-        let mut c = NeighborCache::new();
-        let m = any_cache_into(&mut c, now);
-        (c, m)
-    }
-    // @harness props=C16 kind=mustfail cfg=KI4 tier=q to=600 mem=8 unwind=8 opts=nomem
-    #[kani::proof]
-    pub(crate) fn dbg_a() {
-        eth_env!(dev, iface, now, true);
-        assert!(iface.inner.now == now, "dbg:a");
-        assert!(iface.inner.has_ip_addr(IpAddress::Ipv4(OWN4)), "dbg:a2");
-    }
-    // @harness props=C16 kind=mustfail cfg=KI4 tier=q to=600 mem=8 unwind=8 opts=nomem
-    #[kani::proof]
-    pub(crate) fn dbg_b() {
-        eth_env!(dev, iface, now, true);
-        let m = any_cache_into(&mut iface.inner.neighbor_cache, now);
-        assert_cache_is(&iface.inner.neighbor_cache, &m, now);
-    }
-    // @harness props=C16 kind=mustfail cfg=KI4 tier=q to=600 mem=8 unwind=8 opts=nomem
-    #[kani::proof]
-    pub(crate) fn dbg_c() {
-        eth_env!(dev, iface, now, true);
-        let (c, m) = any_cache_standalone(now);
-        iface.inner.neighbor_cache = c;
-        assert_cache_is(&iface.inner.neighbor_cache, &m, now);
-    }
-    // @harness props=C16 kind=mustfail cfg=KI4 tier=q to=600 mem=8 unwind=8 opts=nomem
-    #[kani::proof]
-    pub(crate) fn dbg_d() {
-        #[cfg(feature = "proto-ipv4")]
-        {
-        eth_env!(dev, iface, now, true);
-        let (c, m) = any_cache_standalone(now);
-        iface.inner.neighbor_cache = c;
-        let a = any_arp_frame();
-        kani::assume(!v4_own_subnet_broadcast(&a.spa));
-        let eth = EthernetFrame::new_unchecked(&a.frame[..]);
-        let reply = iface.inner.process_arp(now, &eth);
-        let spa = IpAddress::Ipv4(a.spa);
-        let sha = HardwareAddress::Ethernet(EthernetAddress(a.sha));
-        if reply.is_some() {
-            assert!(iface.inner.neighbor_cache.lookup(&spa, now) == NeighborAnswer::Found(sha), "dbg:d");
-        }
-        }
-    }
-    // DEBUG-END
 }
